@@ -272,7 +272,7 @@ Qed.
    current weights / factors, every branch returns the explicit residual (of the imputed tensor, minus the sparse component) *)
 Theorem error_calc_every_branch (X : tensor F) R w fs card mask M :
   0 < length (shape X) -> length fs = length (shape X) ->
-  (forall Mt, M = Some Mt -> forall i r,
+  (forall Mt, M = Some Mt -> forall i r, i < nth (length (shape X) - 1) (shape X) 0 -> r < R ->
      get (f0 Op) Mt [i; r] = mttkrp Op (shape X) (tfun Op X) (wfun Op w) (colsT Op fs) (length (shape X) - 1) i r) ->
   error_calc_model Op X R w fs card mask M
   = err_explicit Op X (cp_tensor_entry Op R w fs) (sparse_of Op X (cp_tensor_entry Op R w fs) card mask) mask.
@@ -282,6 +282,74 @@ Proof.
   cbn [sparse_of]. change (err_explicit Op X (cp_tensor_entry Op R w fs) None None) with (err_cp_true Op X R w fs None None).
   rewrite <- (err_shortcut_is_true X R w fs (length (shape X) - 1)) by (auto; lia).
   unfold err_shortcut_with, err_shortcut, err2_fast, err2_fast_with. f_equal. f_equal. f_equal.
-  unfold iprod. apply S_ext; intros r _. f_equal. apply S_ext; intros i _. now rewrite (HM Mt eq_refl).
+  unfold iprod. apply S_ext; intros r Hr. f_equal. apply S_ext; intros i Hi. now rewrite (HM Mt eq_refl i r Hi Hr).
+Qed.
+
+(* ------------------------------------------------------------------------------------------
+   9. the sweep on data (round 6): the MTTKRP remembered at the end of a sweep IS the MTTKRP of the last updated mode for the
+      UPDATED factors (it was computed before that factor was overwritten and does not read it), so the hypothesis of
+      error_calc_every_branch is established by the sweep itself, for every solve oracle
+   ------------------------------------------------------------------------------------------ *)
+Lemma colsT_nth_set (fs : list (tensor F)) n A r k d : k <> n -> nth k (colsT Op (set_nth n A fs) r) d = nth k (colsT Op fs r) d.
+Proof.
+  intros Hk. unfold colsT. set (g := fun (B : tensor F) (i : nat) => get (f0 Op) B [i; r]).
+  destruct (lt_dec k (length fs)) as [Hl | Hl].
+  - rewrite (nth_indep _ d (g (mk [] []))) by (rewrite map_length, set_nth_length; exact Hl).
+    rewrite (nth_indep (map g fs) d (g (mk [] []))) by (rewrite map_length; exact Hl).
+    rewrite !map_nth. now rewrite nth_set_nth_other.
+  - rewrite !nth_overflow; [reflexivity | rewrite map_length; lia | rewrite map_length, set_nth_length; lia].
+Qed.
+Lemma data_sweep_length solve (X : tensor F) R w : forall ms fs M, length (fst (data_sweep Op solve X R w ms fs M)) = length fs.
+Proof. induction ms as [|m ms IH]; intros fs M; cbn [data_sweep]; [reflexivity|]. rewrite IH. apply set_nth_length. Qed.
+Lemma data_sweep_app solve (X : tensor F) R w n : forall ms fs M,
+  data_sweep Op solve X R w (ms ++ [n]) fs M =
+  (let fs1 := fst (data_sweep Op solve X R w ms fs M) in
+   let Mt := mttkrp_data Op X R w fs1 n in (set_nth n (solve n Mt fs1) fs1, Some Mt)).
+Proof. induction ms as [|m ms IH]; intros fs M; cbn [data_sweep app]; [reflexivity|]. apply IH. Qed.
+Lemma mttkrp_data_after_update (X : tensor F) R w fs n A i r : i < nth n (shape X) 0 -> r < R ->
+  get (f0 Op) (mttkrp_data Op X R w fs n) [i; r] = mttkrp Op (shape X) (tfun Op X) (wfun Op w) (colsT Op (set_nth n A fs)) n i r.
+Proof.
+  intros Hi Hr. unfold mttkrp_data. rewrite get_tabulate by (cbn; auto). cbn [nth].
+  apply mttkrp_ignores_own_mode.
+  - now rewrite !colsT_length, set_nth_length.
+  - intros k Hk. symmetry. now apply colsT_nth_set.
+Qed.
+(* one iteration of parafac on data: whatever the solve oracle answers, the value error_calc computes after the sweep - through the
+   MTTKRP shortcut when a mode was updated, explicitly when none was - is the explicit squared residual of the UPDATED factors *)
+Theorem parafac_iteration_reports_true_error solve (X : tensor F) R w ms fs :
+  0 < length (shape X) -> length fs = length (shape X) -> (ms = [] \/ last ms 0 = length (shape X) - 1) ->
+  parafac_iteration_error Op solve X R w ms fs
+  = err_explicit Op X (cp_tensor_entry Op R w (fst (data_sweep Op solve X R w ms fs None))) None None.
+Proof.
+  intros Hs HL Hms. unfold parafac_iteration_error.
+  set (res := data_sweep Op solve X R w ms fs None).
+  rewrite (error_calc_every_branch X R w (fst res) None None (snd res)); [reflexivity | exact Hs | unfold res; now rewrite data_sweep_length |].
+  intros Mt HMt i r Hi Hr. unfold res in *.
+  destruct Hms as [-> | Hlast]; [cbn in HMt; discriminate|].
+  destruct (exists_last (l := ms)) as (ms0 & n & ->); [intros ->; cbn in HMt; discriminate|].
+  rewrite last_last in Hlast. subst n. rewrite data_sweep_app in *. cbn [fst snd] in *. injection HMt as <-.
+  now apply mttkrp_data_after_update.
+Qed.
+Lemma last_cons_indep {A} (l : list A) : forall a d d', last (a :: l) d = last (a :: l) d'.
+Proof. induction l as [|b l IH]; intros a d d'; [reflexivity|]. change (last (b :: l) d = last (b :: l) d'). apply IH. Qed.
+(* ... iterated: every value of the list is the explicit squared residual (and squared norm) of the factors at the end of its iteration,
+   and the returned factors are those of the last iteration *)
+Theorem parafac_data_loop_reports_true_errors solve (X : tensor F) R w ms :
+  0 < length (shape X) -> (ms = [] \/ last ms 0 = length (shape X) - 1) ->
+  forall n it fs errs, length fs = length (shape X) ->
+  snd (parafac_data_loop Op solve X R w ms n it fs errs)
+  = errs ++ map (fun fs_j => err_explicit Op X (cp_tensor_entry Op R w fs_j) None None) (parafac_data_states Op solve X R w ms n it fs) /\
+  fst (parafac_data_loop Op solve X R w ms n it fs errs) = last (parafac_data_states Op solve X R w ms n it fs) fs.
+Proof.
+  intros Hs Hms. induction n as [|n IH]; intros it fs errs HL; cbn [parafac_data_loop parafac_data_states map last].
+  - now rewrite app_nil_r.
+  - set (res := data_sweep Op (solve it) X R w ms fs None).
+    assert (HL' : length (fst res) = length (shape X)) by (unfold res; now rewrite data_sweep_length).
+    destruct (IH (S it) (fst res) (errs ++ [error_calc_model Op X R w (fst res) None None (snd res)]) HL') as [H1 H2].
+    split.
+    + rewrite H1, <- app_assoc. cbn [app]. do 2 f_equal.
+      exact (parafac_iteration_reports_true_error (solve it) X R w ms fs Hs HL Hms).
+    + rewrite H2. destruct (parafac_data_states Op solve X R w ms n (S it) (fst res)) as [|a l]; [reflexivity|].
+      change (last (a :: l) (fst res) = last (a :: l) fs). apply last_cons_indep.
 Qed.
 End P.
